@@ -112,8 +112,8 @@ def run(ctx):
     if quick:
         none = [c for c in cases if '"loc":"none"' in c]
         rest = [c for c in cases if '"loc":"none"' not in c]
-        keep = none + rnd.sample(rest, min(len(rest), 1000))
-        nrand, nchk, ninj, workers = 400, 3, 5, 8
+        keep = none + rnd.sample(rest, min(len(rest), 2000))
+        nrand, nchk, ninj, workers = 600, 3, 5, 8
     else:
         keep = cases
         nrand, nchk, ninj, workers = 12000, 8, 16, 8
@@ -209,6 +209,6 @@ def run(ctx):
                          "per-call allocation is the delta of the cumulative heap-allocation counter (runtime/metrics /gc/heap/allocs:bytes = MemStats.TotalAlloc, read without stopping the world); the plain and gzip whole-stream runs are additionally bounded by the MemStats.TotalAlloc delta of the run",
                          "children run under RLIMIT_AS = 3 GiB; an allocation the cap refuses is judged by its requested size taken from the runtime's abort message",
                          "gzip-wrapped streams: safety envelope and chunking determinism only (no equality with the plain stream is demanded)",
-                         "quick tier samples 1000 of the TLC-enumerated corruptions (plus every uncorrupted base) by the seed; thorough runs all"])
+                         "quick tier samples 2000 of the TLC-enumerated corruptions (plus every uncorrupted base) by the seed; thorough runs all"])
     shutil.rmtree(wd, ignore_errors=True)
     return rc
